@@ -7,6 +7,7 @@ previous key is replaced by the current key on every non-violating path), first-
 extraction provenance, no carried state between blocks, no swallowed error.
 Not decided: the verdict on a concrete sequence (string / number comparison, regex matching).
 """
+import os
 import re
 
 from engine.cfg import cfg_of, dag_of
@@ -398,6 +399,110 @@ def _lower_eq(cls, s):
     if s in ("asc", "desc"):
         return CW.const(0)
     return None
+
+
+def check_line_index(ctx, out, vb, rule="C06.lineidx"):
+    """Which content line a keep-sorted violation designates, on the small model: three content lines (keyed /
+    not keyed), the comparator answering `out of order` for exactly one pair - the position asked of
+    `Block::content_line_position` for the violation is the index (among *all* content lines) of the later
+    line of that pair. True / False, None if the model cannot follow the code."""
+    from engine import casewalk as CW
+    from engine import listmodel as LM
+    loops = [(h, bl) for h, bl, kind in shared.outer_block_loops(ctx, vb) if kind == "blocks"]
+    keyfn_at = {bi: cb for cb, bi, t in key_fns(ctx, vb)}
+    keysites = set(keyfn_at)
+    cmp_sites = {bi for bi, t in vb.calls() if (ctx.facts.body(t.get("res") or "") is not None) and ctx.facts.body(t.get("res")).local_ty(0).startswith("std::result::Result<std::cmp::Ordering")}
+    vsites = {bi for bi, t in vb.calls() if callee_matches(t, r"validators::Violation::new$") or
+              (ctx.facts.body(t.get("res") or "") is not None and re.search(r"Result<blockwatch::validators::Violation,|^blockwatch::validators::Violation$", ctx.facts.body(t.get("res")).local_ty(0)))}
+    if len(loops) != 1 or not keysites or not cmp_sites or not vsites:
+        return None
+    h, lblocks = loops[0]
+    drivers = {bi for bi, t in vb.calls() if bi in lblocks and callee_matches(t, r"Iterator>?::next$")
+               and shared.iterates_blocks(render(ctx.expr(vb).operand(t["args"][0]), 3000))}
+    std = CW.std_hooks()
+    lm = LM.hooks()
+    n = 0
+    cases = [("SSS", ("K1", "K2"), 1), ("SSS", ("K2", "K3"), 2), ("SNS", ("K1", "K3"), 2), ("NSS", ("K2", "K3"), 2)]
+    for pat, bad_pair, want in cases:
+        got = set()
+
+        def hook(w, bb, t, argv, env, pat=pat, bad_pair=bad_pair):
+            nm = callee_name(t)
+            if bb in drivers:
+                return CW.adt("std::option::Option", "Some", 1, [("0", CW.TOP)])
+            if re.search(r"blocks::Block::content$", nm):
+                return CW.sym("CONTENT")
+            if re.search(r"<impl str>::lines$", nm) and argv and w.deref_val(env, argv[0]) == CW.sym("CONTENT"):
+                return LM.itr((CW.sym("L0"), CW.sym("L1"), CW.sym("L2")))
+            if re.search(r"blocks::Block::content_line_position$", nm) and len(argv) > 1:
+                i = w.deref_val(env, argv[1])
+                env[-5] = ("tuple", env.get(-5, ("tuple", ()))[1] + (i,))
+                return ("tuple", (CW.sym("LINE-NO", i), CW.sym("COL0")))
+            if bb in keysites:
+                i = env.get(-1, CW.const(0))[1]
+                if i >= 3:
+                    return "diverge"
+                env[-1] = CW.const(i + 1)
+                if pat[i] == "N":
+                    return CW.adt("std::option::Option", "None", 0, [])
+                return CW.adt("std::option::Option", "Some", 1, [("0", key_value(ctx, keyfn_at[bb], CW.sym("K%d" % (i + 1))))])
+            if bb in cmp_sites:
+                vals = [w.deref_val(env, a) for a in argv]
+                ks = tuple(v[1] for v in vals if v[0] == "sym" and str(v[1]).startswith("K"))
+                o = "Greater" if ks == bad_pair else "Less"
+                return CW.adt("std::result::Result", "Ok", 0, [("0", ("adt", "std::cmp::Ordering", o, ORD_DISCR[o], ()))])
+            if re.search(r"HashMap::<K, V, S, A>::(get|contains_key)$", nm) and len(argv) > 1 and w.deref_val(env, argv[1]) == CW.const(NAME):
+                return CW.const(1) if nm.endswith("contains_key") else CW.adt("std::option::Option", "Some", 1, [("0", CW.const("asc"))])
+            if re.search(r"anyhow::Context.*::(context|with_context)$|anyhow::context::<impl anyhow::Context|Result::<T, E>::map_err$", nm):
+                a0 = w.deref_val(env, argv[0]) if argv else CW.TOP
+                return a0 if a0[0] == "adt" and a0[2] == "Ok" else None
+            if re.search(r"<impl str>::to_(ascii_)?lowercase$|<impl str>::trim$", nm):
+                a0 = w.deref_val(env, argv[0]) if argv else CW.TOP
+                return a0 if CW.is_const(a0) else None
+            if re.search(r"<impl str>::is_empty$|string::String::is_empty$", nm):
+                a0 = w.deref_val(env, argv[0]) if argv else CW.TOP
+                return CW.const(1 if a0[1] == "" else 0) if CW.is_const(a0) and isinstance(a0[1], str) else None
+            if re.search(r"cmp::PartialEq.*>::(eq|ne)$", nm):
+                a0 = w.deref_val(env, argv[0]) if argv else CW.TOP
+                b0 = w.deref_val(env, argv[1]) if len(argv) > 1 else CW.TOP
+                if CW.is_const(a0) and CW.is_const(b0):
+                    return CW.const(1 if ((a0[1] == b0[1]) != nm.endswith("::ne")) else 0)
+            r = lm(w, bb, t, argv, env)
+            if r is not None:
+                return r
+            return std(w, bb, t, argv, env)
+        w = CW.Walk(ctx, vb, [hook])
+
+        def on_visit(bb, env, got=got):
+            if bb in vsites:
+                idx = env.get(-5, ("tuple", ()))[1]
+                last = idx[-1] if idx else None
+                got.add(last[1] if (last is not None and CW.is_const(last)) else "?")
+        w.on_visit = on_visit
+        first = [True]
+
+        def stop(bb, env, first=first):
+            if bb == h:
+                if first[0]:
+                    first[0] = False
+                    return False
+                return True
+            return False
+        try:
+            w.explore(h, {}, stop)
+        except CW.Limit:
+            return None
+        if got == {want}:
+            n += 1
+        elif "?" in got or not got:
+            if os.environ.get("BW_DEBUG_MODEL"):
+                print("C06.lineidx undecided:", pat, bad_pair, "got", got)
+            return None
+        else:
+            out.viol(rule, "%s|%s|%s" % (rule, pat, "-".join(bad_pair)), ctx.where(vb),
+                     "lines %s (S: has a key, N: none), the pair (%s, %s) out of order: the violation designates content line index %s; expected %d (the later line of the pair, counted over all content lines)" % (pat, bad_pair[0], bad_pair[1], sorted(got), want))
+    out.inst(rule, n, 4, ["the violation's line = index of the later line of the offending pair (4 cases)"], exhaustive=True)
+    return n == 4
 
 
 def check_pairs(ctx, out, vb, rule="C06.adjacent"):
@@ -793,6 +898,15 @@ def run(ctx, out, tier):
             out.viol("C06.key", "C06.key|input-transformed|%s" % cb.id, ctx.where(vb, t["span"]), "the line is transformed (%s) before key extraction" % extra)
     out.inst("C06.key", n_key, 8, [k[0].id for k in kfs])
     check_key_table(ctx, out, kfs)
+    # which line the violation designates (small model; undecided = the provenance rules of C10 decide)
+    tr_li = out.trial()
+    try:
+        li = check_line_index(ctx, tr_li, vb)
+    except Exception as e:      # noqa: BLE001
+        ctx.view_fallbacks.append("C06.lineidx: small-model analysis failed (%s: %s)" % (type(e).__name__, e))
+        li = None
+    if li is not None:
+        out.adopt(tr_li)
 
     shared.sh_err(ctx, out, ctx.validator_bodies(NAME), floor=10)
     shared.sh_state(ctx, out, NAME)
